@@ -147,6 +147,8 @@ func (c *Conn) Subprotocol() string {
 }
 
 func (c *Conn) close() error {
+	simYield("closeMu.before", c)
+	defer simNote("closeMu.released", c)
 	c.closeMu.Lock()
 	defer c.closeMu.Unlock()
 
@@ -155,14 +157,17 @@ func (c *Conn) close() error {
 	}
 	runtime.SetFinalizer(c, nil)
 	close(c.closed)
+	simYield("close.flagged", c)
 
 	// Have to close after c.closed is closed to ensure any goroutine that wakes up
 	// from the connection being closed also sees that c.closed is closed and returns
 	// closeErr.
 	err := c.rwc.Close()
+	simYield("close.rwc", c)
 	// With the close of rwc, these become safe to close.
 	c.msgWriter.close()
 	c.msgReader.close()
+	simYield("close.torn", c)
 	return err
 }
 
@@ -228,6 +233,7 @@ func (c *Conn) ping(ctx context.Context, p string) error {
 	if err != nil {
 		return err
 	}
+	simYield("ping.registered", c)
 
 	select {
 	case <-c.closed:
@@ -252,6 +258,7 @@ func newMu(c *Conn) *mu {
 }
 
 func (m *mu) forceLock() {
+	simYield("mu.forcelock", m.c)
 	m.ch <- struct{}{}
 }
 
@@ -265,12 +272,14 @@ func (m *mu) tryLock() bool {
 }
 
 func (m *mu) lock(ctx context.Context) error {
+	simYield("mu.lock.enter", m.c)
 	select {
 	case <-m.c.closed:
 		return net.ErrClosed
 	case <-ctx.Done():
 		return fmt.Errorf("failed to acquire lock: %w", ctx.Err())
 	case m.ch <- struct{}{}:
+		simYield("mu.lock.acquired", m.c)
 		// To make sure the connection is certainly alive.
 		// As it's possible the send on m.ch was selected
 		// over the receive on closed.
@@ -290,6 +299,7 @@ func (m *mu) unlock() {
 	case <-m.ch:
 	default:
 	}
+	simYield("mu.unlock", m.c)
 }
 
 type noCopy struct{}
